@@ -544,5 +544,11 @@ class Cgen:
         out += ['/* externals (bodies come from stubs/ or are VF_EXTERNAL-guarded) */']
         out += [p for _, p in ext]
         out += bodies
+        if s.instr_stores:
+            # writable statics of the translation unit (for the shared-write-set obligations): everything that is not a constant
+            # and not an initialisation guard; function-local statics (_ZZ...) may only be written inside their guard region
+            stat = [g for g, _ in gl if m.globals[g][2] == 'global' and not g.startswith('@_ZGV')]
+            out.append('int vf_is_static(char* p) { return %s; }' % (' || '.join('__CPROVER_same_object(p, (char*)&G_%s)' % cname(g) for g in stat) or '0'))
+            out.append('/* writable statics: %s */' % ', '.join(stat))
         s.emitted = fs; s.externals = [n for n, _ in ext]
         return '\n'.join(out) + '\n'
